@@ -4,6 +4,20 @@
 EXTENDS XmlDoc, Json, IOUtils, TLC
 Ev == ndJsonDeserialize(IOEnv.EVENT)[1]
 ASSUME PrintT(<<"EQUIVDIFF", EquivDiff(Ev.topos[1], Ev.topos[Ev.slot + 1], Ev.flags)>>)
+\* the recorded finding "memory child moved by a level merge keeps the complete_cpuset of the removed object": the two projections differ
+\* ONLY in the complete_cpuset of memory objects whose complete_cpuset differs from their parent's in the source and equals it after the reload
+\* (compared as the trace specification compares them: tree and sets only when the document is a v2-format export, DOCV2 = "1")
+MemCcsOnly(a0, b0) ==
+  LET v2 == "DOCV2" \in DOMAIN IOEnv /\ IOEnv.DOCV2 = "1"
+      a == IF v2 THEN TreeAndSets(a0) ELSE TopoCoreF(a0, Bit(Ev.flags, TOPO_FLAG_IMPORT_SUPPORT), Ev.flags)
+      b == IF v2 THEN TreeAndSets(b0) ELSE TopoCoreF(b0, Bit(Ev.flags, TOPO_FLAG_IMPORT_SUPPORT), Ev.flags) IN
+  /\ [a EXCEPT !.objs = <<>>] = [b EXCEPT !.objs = <<>>]
+  /\ Len(a.objs) = Len(b.objs)
+  /\ \A i \in 1..Len(a.objs) : LET x == a.objs[i]  y == b.objs[i] IN
+        x # y => /\ IsMem(x) /\ [x EXCEPT !.ccs = y.ccs] = y
+                 /\ x.parent \in 1..Len(a.objs) /\ x.ccs # a.objs[x.parent].ccs /\ y.ccs = b.objs[x.parent].ccs
+  /\ \E i \in 1..Len(a.objs) : a.objs[i] # b.objs[i]
+ASSUME PrintT(<<"MEMCCSONLY", MemCcsOnly(Ev.topos[1], Ev.topos[Ev.slot + 1])>>)
 VARIABLE x
 Init == x = 0
 Next == x' = x
